@@ -69,6 +69,10 @@ TEMPLATES = {
     "serde_sealed": "pub fn probe(t: &SealedToken<V, Public, M>) {{ let _ = serde_json::to_string(t); }}",
     "serde_unsealed": "pub fn probe(t: &UnsealedToken<V, Public, M>) {{ let _ = serde_json::to_string(t); }}",
     "claims_of_sealed": "pub fn probe(t: SealedToken<V, Local, M>) {{ let _ = t.claims; }}",
+    "footer_field_of_sealed": "pub fn probe(t: SealedToken<V, Local, M, Vec<u8>>) {{ let _ = t.footer; }}",
+    "payload_field_of_sealed": "pub fn probe(t: SealedToken<V, Public, M>) {{ let _ = t.payload; }}",
+    "claims_of_unsealed": "pub fn probe(t: UnsealedToken<V, Local, M>) {{ let _ = t.claims; }}",
+    "footer_of_unsealed": "pub fn probe(t: UnsealedToken<V, Public, M, Vec<u8>>) {{ let _ = t.footer; }}",
     "footer_unverified": "pub fn probe(t: &SealedToken<V, Local, M, Vec<u8>>) {{ let _ = t.unverified_footer(); }}",
 }
 
